@@ -601,6 +601,29 @@ def _atom_name(fn, e, truth):
     """canonical, line-free name of one condition of the apply-argument test"""
     import re
 
+    if e.get("k") == "PatCond":
+        # patterns of the argument test: a slice pattern with n elements and a rest says len >= n;
+        # Some/None on `.as_array()` says whether the list is an array literal
+        pat = e["pat"]
+        sc = hir.peel(e["scrut"])
+        while pat.get("k") in ("Ref", "Deref", "Box"):
+            pat = pat["inner"]
+        if pat.get("k") == "Slice":
+            nfix = len(pat.get("pats", []))
+            has_rest = bool(pat.get("rest"))
+            if not has_rest:
+                nfix_txt = "args.len()==%d" % nfix
+            else:
+                nfix_txt = "args.len()>=%d" % nfix
+            return ("" if truth else "!") + nfix_txt
+        v = str(hir.pat_variant(pat)).split("::")[-1]
+        if hir.is_call(sc) and (hir.callee_name(sc) or sc.get("method")) == "as_array" and v in ("Some", "None"):
+            return ("" if (v == "Some") == truth else "!") + "expr.is_array()"
+        if v == "_":
+            return "_"
+        return ("" if truth else "!") + "matches " + v
+    if e.get("k") == "ArmNot":
+        return "!(" + _atom_name(fn, {"k": "PatCond", "pat": e["pat"], "scrut": e["scrut"]}, True) + " && " + _atom_name(fn, e["guard"], True) + ")"
     e = hir.peel(e)
     neg = not truth
     while e.get("k") == "Unary" and e.get("op") == "Not":
@@ -615,6 +638,8 @@ def _atom_name(fn, e, truth):
     elif hir.is_call(e):
         nm = hir.callee_name(e) or e.get("method")
         base = re.sub(r"#\d+", "", hir.place(hir.call_args(e)[0]) or "?") if hir.call_args(e) else "?"
+        if nm == "is_none":
+            nm, neg = "is_some", not neg
         txt = "%s.%s()" % (base.split(".")[-1] if nm != "is_some" else ".".join(base.split(".")[-1:]), nm)
     else:
         txt = re.sub(r"#\d+", "", hir.describe(e))[:40]
@@ -634,8 +659,21 @@ def rule_apply_args(check):
     f = prog.fn("function_prototype_transform::invalid_args")
     paths = hir.decision_paths(f.body)
     check.floor(R, "paths of the argument test", len(paths), 3)
+    split = []
     for conds, v in paths:
-        names = [_atom_name(f, c, t) for c, t in conds]
+        v0 = hir.peel(v) if isinstance(v, dict) and v.get("k") != "?" else v
+        single = isinstance(v0, dict) and hir.lit_value(v0) is None and v0.get("k") != "?" and len(T._conjuncts(v0)) == 1 and hir.is_call(hir.peel(T._conjuncts(v0)[0])) and (hir.callee_name(hir.peel(T._conjuncts(v0)[0])) or hir.peel(T._conjuncts(v0)[0]).get("method")) in ("is_some", "is_none")
+        if single:
+            lit_t = {"k": "Lit", "lit": {"t": "bool", "v": True}, "sp": v0.get("sp"), "id": v0.get("id")}
+            lit_f = {"k": "Lit", "lit": {"t": "bool", "v": False}, "sp": v0.get("sp"), "id": v0.get("id")}
+            split.append((conds + [(v0, True)], lit_t))
+            split.append((conds + [(v0, False)], lit_f))
+        else:
+            split.append((conds, v))
+    paths = split
+    for conds, v in paths:
+        names = [n_ for n_ in (_atom_name(f, c, t) for c, t in conds) if n_ != "_"]
+        names = [n_ for i_, n_ in enumerate(names) if n_ not in names[:i_]]
         key = "%s/%s" % (R, ",".join(names) or "always")
         if v is None or v.get("k") == "?":
             check.bad(R, key + "/unanalysable", hir.loc(f.rec), "cannot evaluate the argument test on this path (%s)" % (v or {}).get("why"))
@@ -726,6 +764,20 @@ def rule_predicates(check):
             else:
                 kinds.append("?")
         ok = sorted(kinds) == ["prop-is-ident", "sym==prototype"]
+        if not ok and len(conj) == 1:
+            t = hir.peel(conj[0])
+            # prop.as_ident().is_some_and(|p| p.sym == PROTOTYPE) / map_or(false, ..)
+            if hir.is_call(t) and (hir.callee_name(t) or t.get("method")) in ("is_some_and", "map_or"):
+                recv = hir.peel(hir.call_args(t)[0])
+                cl = hir.peel(hir.call_args(t)[-1])
+                dflt_ok = (hir.callee_name(t) or t.get("method")) == "is_some_and" or hir.lit_value(hir.call_args(t)[1]) is False
+                if hir.is_call(recv) and (hir.callee_name(recv) or recv.get("method")) == "as_ident" and T._place_ends(hir.call_args(recv)[0], "prop") and cl.get("k") == "Closure" and dflt_ok:
+                    b_ = hir.peel(cl["body"])
+                    if b_.get("k") == "Binary" and b_["op"] == "Eq":
+                        cs = [hir.def_path_of(x) for x in (hir.peel_transparent(b_["l"]), hir.peel_transparent(b_["r"])) if hir.def_path_of(x)]
+                        sym = any(x.get("k") == "Field" and x["field"] == "sym" for x in (hir.peel_transparent(b_["l"]), hir.peel_transparent(b_["r"])))
+                        lit = [hir.lit_value(x) for x in (b_["l"], b_["r"]) if hir.lit_value(x) is not None]
+                        ok = sym and ((cs and vals.get(cs[0].split("::")[-1]) == "prototype") or lit == ["prototype"])
     check.expect(ok, R, R + "/member_prop_is_prototype", hir.loc(g.rec), "member_prop_is_prototype <=> prop is the identifier `prototype`", "member_prop_is_prototype is not `prop.is_ident() && prop.sym == \"prototype\"`")
     from .. import gate
 
